@@ -100,7 +100,10 @@ class C03(Check):
                                 # declarations may also carry free-form string tags next to enum members
                                 "tags": rng.sample(MC.STRING_TAGS, rng.choice([0, 0, 0, 1, 1, 2])),
                                 "behaviour": beh[nm],
-                                "attr": rng.choice(["required_capabilities", "required_capabilities", "capabilities"])})
+                                "attr": rng.choice(["required_capabilities", "required_capabilities", "capabilities"]),
+                                # how the tool reaches the registry: a Tool object, a SimpleTool around the same body,
+                                # or register_function (the public convenience API)
+                                "via": rng.choice(["object", "object", "simple", "function"])})
                 elif k < 0.55:
                     t = rng.choice(names)
                     expr = rng.choice([f"{t}()", f"{t}(1, 2)", f"{t}(1, k=2)", f"{t.upper()}(3)", f"{t}(1 + 1)", f"ghost(1)",
@@ -150,7 +153,15 @@ class C03(Check):
                 t = MC.ToolStub(op["name"], set(rec.capset(op["caps"])) | set(op.get("tags", [])), op["behaviour"], rec.log, I,
                                 op["attr"])
                 rec.tools.append(t)
-                m.engulf_tool(t)
+                via = op.get("via", "object")
+                caps_decl = getattr(t, op["attr"])
+                if via == "simple" and op["attr"] == "required_capabilities":
+                    from operon_ai.organelles.mitochondria import SimpleTool
+                    m.engulf_tool(SimpleTool(name=t.name, description="stub", func=t.execute, required_capabilities=set(caps_decl)))
+                elif via == "function" and op["attr"] == "required_capabilities":
+                    m.register_function(t.name, t.execute, "stub", required_capabilities=set(caps_decl))
+                else:
+                    m.engulf_tool(t)
                 steps.append({"op": "reg"})
                 continue
             if op["op"] == "observe":
